@@ -903,6 +903,20 @@ func (e *Exec) miniFormat(format StringVal, args SliceVal) Value {
 		av := argLocs[ai].v
 		ai++
 		iv, _ := av.(IfaceVal)
+		if (f[i] == 's' || f[i] == 'v') && iv.t != nil {
+			// fmt calls Error()/String() on operands that have them
+			for _, mname := range []string{"Error", "String"} {
+				if _, isStr := iv.v.(StringVal); isStr {
+					break
+				}
+				if m := e.findMethod(iv.t, nil, mname); m != nil && m.Signature.Params().Len() == 0 && m.Signature.Results().Len() == 1 {
+					if r, ok := e.call(m, []Value{iv.v}, nil, e.curFrame).(StringVal); ok {
+						iv = IfaceVal{t: types.Typ[types.String], v: r}
+					}
+					break
+				}
+			}
+		}
 		switch f[i] {
 		case 's', 'v':
 			switch x := iv.v.(type) {
@@ -929,6 +943,14 @@ func (e *Exec) miniFormat(format StringVal, args SliceVal) Value {
 			if ok && !x.IsConst() && x.w > 0 && f == "%d" {
 				return StringVal{opq: true, tok: x}
 			}
+			if ok && !x.IsConst() && x.w > 0 && x.w <= 64 {
+				digs, dok := e.symDecimal(x, iv.t)
+				if !dok {
+					return StringVal{opq: true}
+				}
+				out = append(out, digs...)
+				continue
+			}
 			if !ok || !x.IsConst() || x.w == 0 {
 				return StringVal{opq: true}
 			}
@@ -942,6 +964,52 @@ func (e *Exec) miniFormat(format StringVal, args SliceVal) Value {
 		}
 	}
 	return StringVal{b: out}
+}
+
+// symDecimal renders a symbolic non-negative integer in decimal: the number of
+// digits is decided by range branches (at most 10 forks for 32 bits), each
+// digit is (x / 10^k) % 10 as a term.
+func (e *Exec) symDecimal(x *Node, typ types.Type) ([]*Node, bool) {
+	t := e.tb
+	if _, signed, ok := intWidth(typ); ok && signed {
+		if !e.branch(t.Cmp(OSle, t.Const(x.w, 0), x)) {
+			return nil, false // negative: not needed by the targeted code
+		}
+	}
+	w := x.w
+	maxDigits := 20
+	switch {
+	case w <= 8:
+		maxDigits = 3
+	case w <= 16:
+		maxDigits = 5
+	case w <= 32:
+		maxDigits = 10
+	}
+	n := 1
+	pow := uint64(10)
+	for n < maxDigits {
+		if w < 64 && pow > mask(w) {
+			break
+		}
+		if e.branch(t.Cmp(OUlt, x, t.Const(w, pow))) {
+			break
+		}
+		n++
+		pow *= 10
+	}
+	digs := make([]*Node, n)
+	div := uint64(1)
+	for k := 0; k < n; k++ {
+		q := x
+		if div > 1 {
+			q = t.Bin(OUDiv, x, t.Const(w, div))
+		}
+		d := t.Bin(OURem, q, t.Const(w, 10))
+		digs[n-1-k] = t.Bin(OAdd, t.Extract(d, 7, 0), t.Const(8, '0'))
+		div *= 10
+	}
+	return digs, true
 }
 
 func (e *Exec) namedType(pkg, name string) types.Type {
